@@ -32,6 +32,8 @@ T = {
          "Trusted: TLC, scripted doubles.", "TLA+ spec (Adapters) + TLC simulate-generated behaviours replayed into the real code"),
  'C17': (MC, 'shardq-sched', "The implementation-shaped ShardQueue.tla (one action per atomic operation) is model-checked exhaustively; TLC counterexamples of the modelled deviations and of the as-is model plus TLC-simulated and random/PCT schedules are replayed on the real ShardQueue under a controlled scheduler (every atomic op a schedule point); each execution is validated against ShardQueueObs.tla and, step by step with the projected shared words, against ShardQueue.tla itself.",
          "Trusted: TLC, the mux controlled scheduler, the connection double. Exhaustive for 2 shards x 2 adders x <=2 adds + Close.", "impl-shaped TLA+ spec model-checked by TLC; TLC-generated schedules replayed on the code; trace validation against observable and impl-shaped specs"),
+ 'C18': (MC, 'pm-sched', "The implementation-shaped PollManager.tla (status word, two-step Run, round-robin counter, phases) is model-checked exhaustively; TLC-simulated schedules, the counterexample of the modelled deviation, random/PCT schedules (controlled scheduler on a private manager with real pollers) and free-running racing first Picks (spin barrier, real threads) are executed; each execution is validated against PollManagerObs.tla (picked poller running, exactly the configured number of loops after each phase, round-robin evenness, no panic) and, step by step, against PollManager.tla.",
+         "Trusted: TLC, controlled scheduler, loop start/exit trace points. Exhaustive for 3 pickers x 2 picks x sizes 2,1,3.", "impl-shaped TLA+ spec model-checked by TLC; TLC-generated schedules replayed on the code; trace validation against observable and impl-shaped specs"),
 }
 for k in ('C02', 'C03'):
     T[k] = T['C01']
@@ -54,6 +56,7 @@ engines = [
  {'name': 'after-close', 'path': 'lib/after.py', 'serves_properties': ['C12'], 'kind_free_text': 'TLC-enumerated after-close table on real connections'},
  {'name': 'fd-table', 'path': 'lib/fdt.py', 'serves_properties': ['C15'], 'kind_free_text': 'descriptor audit traces vs spec/FdTable.tla'},
  {'name': 'adapters-replay', 'path': 'lib/adapt.py', 'serves_properties': ['C16'], 'kind_free_text': 'TLC -simulate behaviours of spec/Adapters.tla replayed with scripted io doubles'},
+ {'name': 'pm-sched', 'path': 'lib/pm.py', 'serves_properties': ['C18'], 'kind_free_text': 'spec/PollManager.tla model-checked; schedules replayed on a private manager under the controlled scheduler; free-running racing Picks'},
  {'name': 'shardq-sched', 'path': 'lib/shardq.py', 'serves_properties': ['C17'], 'kind_free_text': 'spec/ShardQueue.tla model-checked; schedules replayed under the mux controlled scheduler'},
 ]
 extra = os.path.join(V, 'lib', 'manifest_extra.json')
